@@ -24,7 +24,7 @@ Not decided: the crash-point x outcome product (fault enumeration is a different
 """
 import re
 
-from facts import short_name
+from facts import short_name, op_local
 from kinds import (rel, k1_callers, k1_constructors, comparisons, result_blocks, k2_site_guarded,
                    on_all_success_paths)
 
@@ -291,16 +291,31 @@ def s6(prog, rep):
         rep.check(len(sb) == 1 and sb == sh, "S6", "submit:blobs-and-height-of-same-submission",
                   f"blobs come from {sorted(sb)} but the recorded height from {sorted(sh)} "
                   f"(args: {[x[:40] for x in a]})", c.where())
-    # (b) handed down unchanged: submit_with_retry -> try_submit -> into_prepared
+    # (b) handed down unchanged: submit_with_retry -> try_submit -> into_prepared.  Parameter
+    # names are not anchors: the operands are identified by their types (the blobs, the height)
+    # and must be bare captured parameters, not expressions computed on the way
+    def typed_args(b, c):
+        out = {}
+        for a in c.args:
+            l = op_local(a)
+            ty = b.locals[l] if l is not None and l < len(b.locals) else ""
+            if "Vec<celestia_types::blob::Blob>" in ty:
+                out["blobs"] = b.root(a)
+            elif ty.endswith("block::height::Height"):
+                out["height"] = b.root(a)
+        return out
     n = 0
     for b in prog.bodies_of(W + "submit_with_retry"):
         for c in b.calls:
             if c.is_(W + "try_submit"):
                 n += 1
-                a = [b.root(x) for x in c.args]
-                rep.check("blobs" in a and "largest_sequencer_height" in a, "S6",
+                t = typed_args(b, c)
+                rep.check(re.fullmatch(r"\w+", t.get("blobs", "-")) is not None and
+                          re.fullmatch(r"\w+", t.get("height", "-")) is not None, "S6",
                           "retry:passes-own-blobs-and-height",
-                          f"try_submit is called with {[x[:40] for x in a]}", c.where())
+                          f"try_submit is called with blobs `{t.get('blobs', '?')[:50]}` and height "
+                          f"`{t.get('height', '?')[:50]}` (must be the parameters it was given)",
+                          c.where())
     rep.floor("S6", n, 1, "try_submit call in submit_with_retry")
     body = prog.main_body(W + "try_submit")
     ip = body.calls_to(SUB + "StartedSubmission::into_prepared")
@@ -308,12 +323,15 @@ def s6(prog, rep):
     rep.floor("S6", len(ip), 1, "into_prepared in try_submit")
     rep.floor("S6", len(tp), 1, "try_prepare in try_submit")
     for c in ip:
-        rep.check(body.root(c.args[1]) == "largest_sequencer_height", "S6",
+        t = typed_args(body, c)
+        rep.check(re.fullmatch(r"\w+", t.get("height", "-")) is not None, "S6",
                   "try_submit:prepared-height=param",
-                  f"prepared record is written for height `{body.root(c.args[1])[:60]}`", c.where())
+                  f"prepared record is written for height `{t.get('height', '?')[:60]}`", c.where())
     for c in tp:
-        rep.check(body.root(c.args[1]) == "blobs", "S6", "try_submit:prepares-own-blobs",
-                  f"the blob tx is built from `{body.root(c.args[1])[:60]}`", c.where())
+        t = typed_args(body, c)
+        rep.check(re.fullmatch(r"\w+", t.get("blobs", "-")) is not None, "S6",
+                  "try_submit:prepares-own-blobs",
+                  f"the blob tx is built from `{t.get('blobs', '?')[:60]}`", c.where())
     # (c) what greatest_sequencer_height is
     b = prog.main_body(CV + "Submission::greatest_sequencer_height")
     g = b.calls_to(CV + "Input::greatest_sequencer_height")
